@@ -22,138 +22,127 @@ class ParseError(ValueError):
     pass
 
 
+import re as _re
+
+_TOK = _re.compile(r'\s*(?:("(?:[^"\\]|\\.)*")|(-?\d+)|([A-Za-z_][A-Za-z0-9_]*)|(<<|>>|\|->|:>|@@|/\\|[\[\]{}(),=]))')
+_ESC = _re.compile(r'\\(.)')
+_ESCMAP = {'n': '\n', 't': '\t', 'r': '\r', 'f': '\f'}
+
+
+def _unesc(m):
+    c = m.group(1)
+    return _ESCMAP.get(c, c)
+
+
+def _tokens(text):
+    """list of tokens: ('s', str) / ('n', int) / ('i', ident) / ('p', punct)"""
+    out = []
+    pos = 0
+    n = len(text)
+    match = _TOK.match
+    while pos < n:
+        m = match(text, pos)
+        if m is None:
+            if text[pos:].strip() == '':
+                break
+            raise ParseError('cannot tokenise at %d: %r' % (pos, text[pos:pos + 40]))
+        pos = m.end()
+        g = m.lastindex
+        if g == 1:
+            raw = m.group(1)[1:-1]
+            out.append(('s', _ESC.sub(_unesc, raw) if '\\' in raw else raw))
+        elif g == 2:
+            out.append(('n', int(m.group(2))))
+        elif g == 3:
+            out.append(('i', m.group(3)))
+        else:
+            out.append(('p', m.group(4)))
+    return out
+
+
 class _P(object):
-    def __init__(self, s):
-        self.s = s
+    def __init__(self, text):
+        self.t = _tokens(text)
         self.i = 0
-        self.n = len(s)
-
-    def ws(self):
-        s, n = self.s, self.n
-        while self.i < n and s[self.i] in ' \t\r\n':
-            self.i += 1
-
-    def peek(self, k=1):
-        return self.s[self.i:self.i + k]
-
-    def expect(self, tok):
-        self.ws()
-        if not self.s.startswith(tok, self.i):
-            raise ParseError('expected %r at %d: %r' % (tok, self.i, self.s[max(0, self.i - 20):self.i + 20]))
-        self.i += len(tok)
+        self.n = len(self.t)
 
     def value(self):
-        self.ws()
-        s = self.s
-        c = s[self.i] if self.i < self.n else ''
-        if c == '"':
-            return self.string()
-        if c == '<' and self.peek(2) == '<<':
-            self.i += 2
-            items = self.items('>>')
-            return tuple(items)
-        if c == '{':
-            self.i += 1
-            return frozenset(self.items('}'))
-        if c == '[':
-            self.i += 1
-            return self.record()
-        if c == '(':
-            self.i += 1
-            return self.function()
-        if c == '-' or c.isdigit():
-            j = self.i + 1
-            while j < self.n and s[j].isdigit():
-                j += 1
-            v = int(s[self.i:j])
-            self.i = j
+        kind, v = self.t[self.i]
+        self.i += 1
+        if kind == 's' or kind == 'n':
             return v
-        if c.isalpha() or c == '_':
-            j = self.i
-            while j < self.n and (s[j].isalnum() or s[j] == '_'):
-                j += 1
-            w = s[self.i:j]
-            self.i = j
-            if w == 'TRUE':
+        if kind == 'i':
+            if v == 'TRUE':
                 return True
-            if w == 'FALSE':
+            if v == 'FALSE':
                 return False
-            return w
-        raise ParseError('unexpected %r at %d: %r' % (c, self.i, s[max(0, self.i - 20):self.i + 20]))
-
-    def string(self):
-        s = self.s
-        assert s[self.i] == '"'
-        j = self.i + 1
-        out = []
-        while True:
-            c = s[j]
-            if c == '\\':
-                nx = s[j + 1]
-                out.append({'n': '\n', 't': '\t', 'r': '\r', 'f': '\f'}.get(nx, nx))
-                j += 2
-            elif c == '"':
-                break
-            else:
-                out.append(c)
-                j += 1
-        self.i = j + 1
-        return ''.join(out)
+            return v
+        if v == '<<':
+            return tuple(self.items('>>'))
+        if v == '{':
+            return frozenset(self.items('}'))
+        if v == '[':
+            return self.record()
+        if v == '(':
+            return self.function()
+        raise ParseError('unexpected token %r at %d' % (v, self.i))
 
     def items(self, close):
         out = []
-        self.ws()
-        if self.s.startswith(close, self.i):
-            self.i += len(close)
+        t = self.t
+        if t[self.i] == ('p', close):
+            self.i += 1
             return out
         while True:
             out.append(self.value())
-            self.ws()
-            if self.s.startswith(close, self.i):
-                self.i += len(close)
+            tok = t[self.i]
+            self.i += 1
+            if tok == ('p', close):
                 return out
-            self.expect(',')
+            if tok != ('p', ','):
+                raise ParseError('expected , or %s, got %r' % (close, tok))
 
     def record(self):
         r = Rec()
-        self.ws()
-        if self.peek() == ']':
+        t = self.t
+        if t[self.i] == ('p', ']'):
             self.i += 1
             return r
         while True:
-            self.ws()
-            j = self.i
-            while j < self.n and (self.s[j].isalnum() or self.s[j] == '_'):
-                j += 1
-            name = self.s[self.i:j]
-            self.i = j
-            self.expect('|->')
+            name = t[self.i][1]
+            if t[self.i + 1] != ('p', '|->'):
+                raise ParseError('expected |-> after %r' % (name,))
+            self.i += 2
             r[name] = self.value()
-            self.ws()
-            if self.peek() == ']':
-                self.i += 1
+            tok = t[self.i]
+            self.i += 1
+            if tok == ('p', ']'):
                 return r
-            self.expect(',')
+            if tok != ('p', ','):
+                raise ParseError('expected , or ], got %r' % (tok,))
 
     def function(self):
         r = Rec()
+        t = self.t
         while True:
             k = self.value()
-            self.expect(':>')
+            if t[self.i] != ('p', ':>'):
+                raise ParseError('expected :>, got %r' % (t[self.i],))
+            self.i += 1
             r[k] = self.value()
-            self.ws()
-            if self.peek() == ')':
-                self.i += 1
+            tok = t[self.i]
+            self.i += 1
+            if tok == ('p', ')'):
                 return r
-            self.expect('@@')
+            if tok != ('p', '@@'):
+                raise ParseError('expected @@ or ), got %r' % (tok,))
 
 
 def parse_value(text):
     p = _P(text)
     v = p.value()
-    p.ws()
     if p.i != p.n:
-        raise ParseError('trailing text at %d: %r' % (p.i, text[p.i:p.i + 40]))
+        raise ParseError('trailing tokens: %r' % (p.t[p.i:p.i + 5],))
     return v
 
 
@@ -161,21 +150,14 @@ def parse_state(text):
     """Parse a conjunction '/\\ x = v\n/\\ y = w' (or a single 'x = v') into a dict."""
     p = _P(text)
     out = {}
-    while True:
-        p.ws()
-        if p.i >= p.n:
-            break
-        if p.s.startswith('/\\', p.i):
-            p.i += 2
-        p.ws()
-        j = p.i
-        while j < p.n and (p.s[j].isalnum() or p.s[j] == '_'):
-            j += 1
-        name = p.s[p.i:j]
-        if not name:
-            raise ParseError('variable name expected at %d: %r' % (p.i, p.s[p.i:p.i + 30]))
-        p.i = j
-        p.expect('=')
+    t = p.t
+    while p.i < p.n:
+        if t[p.i] == ('p', '/\\'):
+            p.i += 1
+        kind, name = t[p.i]
+        if kind != 'i' or t[p.i + 1] != ('p', '='):
+            raise ParseError('variable = expected, got %r' % (t[p.i:p.i + 2],))
+        p.i += 2
         out[name] = p.value()
     return out
 
